@@ -11,7 +11,7 @@ RULE = ('(a) AdbMessage(cmd, arg0, arg1, data).pack() for all 7 commands x arg0,
         'edges) x payload shapes {empty, every single byte value, 0xff runs around 256, 4096, 65536, 1 MiB of 0xff, seeded random; bytes and bytearray}, decoded by an '
         'independent parser (int.from_bytes, literal command words, byte sum) and by the library\'s own unpack; thorough adds a 17 MiB payload whose byte sum exceeds 2^32; '
         '(b) the complete outgoing byte stream of whole sessions (all 8 operations, auth with signatures and public key, failing pushes/pulls) with the local id counter '
-        'started at 0, 2^31-2 and 2^32-3 and remote ids at the 32-bit extremes, also over transports that accept only 1..4095 bytes per write, fed through the strict parser; non-trivial = payload non-empty or session; '
+        'started at 0, 2^31-2 and 2^32-3 and remote ids at the 32-bit extremes, also over transports that accept only 1..4095 bytes per write, fed through the strict parser; (c) two device objects in one process used concurrently (threads with one preemption and one short write; asyncio tasks under <=2 deviations of the I/O completion order), each stream parsed separately; non-trivial = payload non-empty or session; '
         'distinct = distinct (cmd, arg0, arg1, payload shape) / session parameters' % len(B))
 ASSUMPTIONS = ['frames.py (independent codec) implements AOSP protocol.txt correctly', 'the strict parser of adbsim also runs on every execution of every other check']
 
@@ -97,6 +97,79 @@ def run_session(params, ch):
         s.finish()
 
 
+def run_two_devices(params, ch):
+    """Two device objects in one process used at the same time (threads / tasks), one of them over a transport that writes
+    short: nothing that is shared between the objects may leak from one byte stream into the other."""
+    from ..sched import SchedLock, Scheduler
+    from .. import vloop
+    cfg = scen.ops_cfg('two', 4096)
+    twin = params['twin']
+    ops = [('shell', 'c', {'decode': False}), ('stat', '/f')]
+    viol = []
+    if twin == 'sync':
+        s1 = Session(ch, cfg, twin='sync', lock_factory=SchedLock, wcap=True, max_calls=5000)
+        s2 = Session(ch, cfg, twin='sync', lock_factory=SchedLock, max_calls=5000)
+        try:
+            s1.op(('connect',))
+            s2.op(('connect',))
+            sc = Scheduler(ch, max_steps=6000)
+            s1.env.sched = sc
+            s2.env.sched = sc
+            sc.spawn(lambda: [s1.op(o) for o in ops], name='dev1')
+            sc.spawn(lambda: [s2.op(o) for o in ops], name='dev2')
+            res = sc.run()
+            s1.env.sched = s2.env.sched = None
+            if sc.verdict:
+                viol.append({'msg': 'scheduler verdict: %s' % sc.verdict})
+            steps = sc.steps
+        finally:
+            s2.finish()
+            s1.finish()
+    else:
+        s1 = Session(ch, cfg, twin='async', explore_io=False, max_calls=5000)
+        s2 = Session(ch, cfg, twin='async', share_loop=s1.loop, max_calls=5000)
+        try:
+            s1.op(('connect',))
+            s2.op(('connect',))
+            loop = s1.loop
+            loop._explore_io = True
+            loop.io_budgeted = True
+            s1.env.sched = s2.env.sched = loop
+
+            async def run(s):
+                out = []
+                for o in ops:
+                    try:
+                        if o[0] == 'shell':
+                            out.append(('ok', await s.dev.shell(o[1], decode=False)))
+                        else:
+                            out.append(('ok', tuple(await s.dev.stat(o[1]))))
+                    except Exception as e:  # pylint: disable=broad-except
+                        out.append(('exc', type(e).__name__, str(e)[:100]))
+                return out
+            try:
+                tasks = loop.drive(run(s1), run(s2))
+                res = [t.result() for t in tasks]
+            except vloop.Deadlock as e:
+                res = [[('deadlock',)], [('deadlock',)]]
+                viol.append({'msg': 'deadlock: %s' % e})
+            loop._explore_io = False
+            s1.env.sched = s2.env.sched = None
+            steps = loop.steps
+        finally:
+            s2.finish()
+            s1.finish()
+    want = [scen.op_expected('shell', cfg), scen.op_expected('stat', cfg)]
+    for i, (s, r) in enumerate(((s1, res[0]), (s2, res[1]))):
+        for code, msg in s.env.issues:
+            viol.append({'msg': 'device %d: %s: %s' % (i + 1, code, msg)})
+        if r != want:
+            viol.append({'msg': 'device %d: operations gave %r, expected %r' % (i + 1, r, want)})
+    dev = [c for c in ch.choices if c]
+    return {'outcome': (tuple(tuple(x[0] for x in r) for r in res), steps > 0), 'viol': viol, 'nontrivial': (twin, tuple(ch.choices)) if dev else None,
+            'sample': {'twin': twin, 'deviations': [(i, c) for i, c in enumerate(ch.choices) if c][:6]}, 'trans': steps}
+
+
 def parts(tier):
     sc = [{'cmd': c, 'a0': a0} for c in frames.NAMES for a0 in B]
     out = [Part('pack-grid', sc, run_grid, what='7 commands x %d^2 argument values x 5 payloads' % len(B), bound='%d packs' % (len(sc) * len(B) * 5))]
@@ -116,4 +189,8 @@ def parts(tier):
            for t in ('sync', 'async') for c in (1, 5, 7, 23, 24, 25, 100, 4095)]
     out.append(Part('sessions', sc, run_session, {'dev-order': None}, what='whole sessions through the strict parser, id counter at the wrap, remote ids at 32-bit extremes',
                     bound='%d sessions' % len(sc)))
+    out.append(Part('two-devices', [{'twin': 'sync'}], run_two_devices, {'sched': 1, 'wcap': 1, 'dev-order': 0}, split=2, min_outcomes=1,
+                    what='two device objects used from two threads, one over a short-writing transport: all schedules with one preemption x one short write', bound='preemptions <= 1, short writes <= 1'))
+    out.append(Part('two-devices-async', [{'twin': 'async'}], run_two_devices, {'io-order': 2, 'dev-order': 0}, split=2, min_outcomes=1,
+                    what='two device objects used from two asyncio tasks on one loop: every placement of <=2 deviations from the default I/O completion order', bound='io-order deviations <= 2'))
     return out
